@@ -51,8 +51,20 @@ fn rgb8_case(rep: &mut Report, r: u8, g: u8, b: u8) {
 
 fn hsl8_case(rep: &mut Report, h: u8, s: u8, l: u8) {
     let res = catch(|| hsl(h, s, l).to_rgb());
-    if let Err(m) = res {
-        rep.violation("color.u8_hsl_to_rgb_panicked", format!("hsl({h},{s},{l}).to_rgb() panicked: {m}"), Json::obj().set("hsl8", format!("({h},{s},{l})")));
+    match res {
+        Err(m) => rep.violation("color.u8_hsl_to_rgb_panicked", format!("hsl({h},{s},{l}).to_rgb() panicked: {m}"), Json::obj().set("hsl8", format!("({h},{s},{l})"))),
+        Ok(c) => {
+            // the value, against the real-number conversion of the same
+            // fractions (hue h/256 of a turn, s and l out of 255), on the
+            // scale the property uses for 8-bit colours (8/255). In release
+            // builds a channel that leaves 0..=255 wraps, which shows here.
+            let rf = ref_hsl_to_rgb(h as f64 / 256.0, s as f64 / 255.0, l as f64 / 255.0);
+            let d = (0..3).map(|i| (c.0[i] as f64 - rf[i] * 255.0).abs()).fold(0.0, f64::max);
+            rep.worst("u8_hsl_to_rgb_vs_real_conversion_levels", d, 8.0, || format!("hsl({h},{s},{l}) -> rgb{:?}, real-number conversion {:?}", c.0, rf.map(|x| x * 255.0)));
+            if !(d <= 8.0) {
+                rep.violation("color.u8_hsl_to_rgb_wrong", format!("hsl({h},{s},{l}).to_rgb() = {:?}; the real-number conversion gives {:?} (off by {d:.1} levels > 8)", c.0, rf.map(|x| (x * 255.0 * 10.0).round() / 10.0)), Json::obj().set("hsl8", format!("({h},{s},{l})")));
+            }
+        }
     }
 }
 
@@ -74,13 +86,18 @@ fn rgbf_case(rep: &mut Report, c: [f32; 3]) {
                 rep.violation("color.f32_hsl_out_of_range", format!("to_hsl() = {:?} leaves [0,1]", h.0), cj());
                 return;
             }
+            if !back.0.iter().all(|x| in01(*x)) {
+                rep.violation("color.f32_rgb_out_of_range", format!("rgb{:?} -> hsl{:?} -> rgb{:?} leaves [0,1]", c, h.0, back.0), cj());
+                return;
+            }
             let d = (0..3).map(|i| (c[i] - back.0[i]).abs() as f64).fold(0.0, f64::max);
             rep.worst("f32_rgb_hsl_rgb_roundtrip_error", d, 1e-4, || format!("rgb{:?} -> hsl{:?} -> rgb{:?}", c, h.0, back.0));
             if !(d <= 1e-4) {
                 rep.violation("color.f32_roundtrip_error", format!("rgb{:?}.to_hsl() = {:?}, back to rgb = {:?}: error {d:.3e} (> 1e-4)", c, h.0, back.0), cj());
                 return;
             }
-            if c[0] == c[1] && c[1] == c[2] && (h.0[1] != 0.0 || (h.0[2] - c[0]).abs() > 1e-6) {
+            // (x + x)/2 is exact: a gray keeps its lightness to the bit
+            if c[0] == c[1] && c[1] == c[2] && (h.0[1] != 0.0 || !(h.0[2] == c[0])) {
                 rep.violation("color.f32_gray_not_achromatic", format!("gray {} converts to hsl{:?}", c[0], h.0), cj());
             }
         }
@@ -93,8 +110,8 @@ fn hslf_case(rep: &mut Report, c: [f32; 3]) {
     match catch(|| col.to_rgb()) {
         Err(m) => rep.violation("color.f32_hsl_to_rgb_panicked", format!("hsl{:?}.to_rgb() panicked on in-range input: {m}", c), cj()),
         Ok(out) => {
-            // in range (rounding slack of 1e-6)
-            if !out.0.iter().all(|x| *x >= -1e-6 && *x <= 1.0 + 1e-6) {
+            // in range, exactly (NaN is not in range)
+            if !out.0.iter().all(|x| in01(*x)) {
                 rep.violation("color.f32_rgb_out_of_range", format!("hsl{:?}.to_rgb() = {:?} leaves [0,1]", c, out.0), cj());
                 return;
             }
@@ -104,7 +121,16 @@ fn hslf_case(rep: &mut Report, c: [f32; 3]) {
             // and back: HSL→RGB→HSL is the other composition of "mutually
             // inverse"; hue is undefined for s = 0 or l ∈ {0,1}, and h = 1 ≡ 0
             if c[1] > 1e-3 && c[2] > 1e-3 && c[2] < 1.0 - 1e-3 {
-                if let Ok(h2) = catch(|| out.to_hsl()) {
+                let back = catch(|| out.to_hsl());
+                if let Err(m) = &back {
+                    rep.violation("color.f32_rgb_roundtrip_panicked", format!("hsl{:?}.to_rgb() = {:?}, and to_hsl() of that in-range colour panicked: {m}", c, out.0), cj());
+                }
+                if let Ok(h2) = back {
+                    rep.count("f32_hsl_rgb_hsl_compositions_judged");
+                    if !h2.0.iter().all(|x| in01(*x)) {
+                        rep.violation("color.f32_hsl_out_of_range", format!("hsl{:?} -> rgb{:?} -> hsl{:?} leaves [0,1]", c, out.0, h2.0), cj());
+                        return;
+                    }
                     let dh = {
                         let d = (h2.0[0] - c[0]).abs() as f64;
                         d.min(1.0 - d)
@@ -365,7 +391,7 @@ pub fn run(cfg: &Cfg, rep: &mut Report) {
     rep.run_stream(cfg, 9, "f32_magnitudes", cfg.n(600_000, 60_000_000), |rng, _, rep| {
         let mut ch = |rng: &mut Rng| -> f32 {
             match rng.below(8) {
-                0 => 0.0,
+                0 => if rng.bool() { 0.0 } else { -0.0 },
                 1 => f32::from_bits(1 + rng.below(0x7f_ffff) as u32), // subnormal
                 2 | 3 => rng.log_f32(1e-38, 1.0),
                 4 => 1.0 - rng.log_f32(6e-8, 1e-2),
@@ -375,10 +401,19 @@ pub fn run(cfg: &Cfg, rep: &mut Report) {
             }
         };
         let c = [ch(rng), ch(rng), ch(rng)];
-        let c = match rng.below(5) {
+        let c = match rng.below(8) {
             0 => [c[0], c[0], c[0]],
             1 => [c[0], c[1], c[1]],
             2 => [c[0], c[0], c[2]],
+            3 => [c[0], c[1], c[0]],
+            4 | 5 => {
+                // one channel an ulp away from another (any pair): the hue
+                // branches r~g, g~b, r~b at every magnitude
+                let (i, j) = [(0, 1), (1, 0), (1, 2), (2, 1), (0, 2), (2, 0)][rng.usize(6)];
+                let mut d = c;
+                d[i] = rng.ulp_nudge(c[j]).clamp(0.0, 1.0);
+                d
+            }
             _ => c,
         };
         let mut hs = Hasher::new();
@@ -466,6 +501,7 @@ pub fn run(cfg: &Cfg, rep: &mut Report) {
     rep.floor("packing_words", 1 << 24);
     rep.floor("saturating_add_pairs", 256 * 511);
     rep.floor("f32_magnitudes.grays_darker_than_1e-6", 10_000);
+    rep.floor("f32_hsl_rgb_hsl_compositions_judged", 200_000);
     let _ = hsla(0u8, 0, 0, 0);
 }
 
